@@ -57,7 +57,7 @@ def check(case, res):
     ids = obs.ids
     v = []
     labels = []
-    if res["status"] == "deadlock":
+    if res["status"] in ("deadlock", "livelock"):
         return Outcome([], ["deadlock_ignored_here"], False, obs.brief())
     again = "again" in case["flags"]
     stop_early = "stop_early" in case["flags"]
